@@ -57,6 +57,14 @@ def scan(text):
             elif in_char is not None and j < n and raw[j] != "!":
                 # a literal continued without leading '&' : text continues at the first column
                 i = 0
+            if in_char is not None and (j >= n or raw[j] == "!"):
+                # F2018 6.3.2.4: a continued character context resumes on the next line that is not a comment (blank
+                # lines count as comment lines); the lines in between hold no statement text.  A directive sentinel
+                # there would be compiler-specific: outside the premise.
+                if j < n and SENTINEL.match(raw[j:]):
+                    valid = False
+                notes.add("comment-in-literal-continuation" if j < n else "blank-in-literal-continuation")
+                continue
             if in_char is None and (j >= n or raw[j] == "!"):
                 # blank or comment line inside a continued statement
                 if j < n and SENTINEL.match(raw[j:]):
